@@ -6,7 +6,7 @@
     All theorems quantify over EVERY label list = every client program (any number of handlers,
     RunHandlers / Stop / Close / Run calls and threads) and every schedule. *)
 From WM Require Import Base.Prelude Base.Count RouterLife.Model RouterLife.Monitor RouterLife.Inv
-                       RouterLife.ProofsA RouterLife.ProofsB RouterLife.Theorems RouterLife.Witness.
+                       RouterLife.ProofsA RouterLife.ProofsB RouterLife.ProofsW RouterLife.SelfClose RouterLife.Theorems RouterLife.Witness.
 
 (** Running() closed => each of the [run_n] handlers registered when Run's RunHandlers took
     handlersLock is started and holds its (one) subscription. *)
@@ -97,17 +97,28 @@ Theorem C10_shared_publisher_witness :
 Proof. exact shared_publisher_witness. Qed.
 Print Assumptions C10_shared_publisher_witness.
 
-(** Self-close, the part that is a theorem (hence _partial): handlersWg counts exactly the
-    handlers whose goroutine has not passed Done(), so once all have, a watcher blocked in
-    Wait() continues.  NOT mechanised: the full stuck-state characterisation (closedLock /
-    handlersLock holders always progress, the handlerAdded signal is pending whenever the
-    watcher still waits for it) and a termination measure. *)
-Theorem C10_self_close_partial : forall (f4 f14 f15 : bool) (ls : list label),
+(** Self-close (repaired model, all three flags): in EVERY reachable state in which Run has
+    started and not returned, if at least one handler was added and every added handler's
+    goroutine is past handlersWg.Done() - or the Run context is cancelled and every added handler
+    is started with a subscription that follows that context - then some goroutine of the router
+    or some call in progress ([internal] label: Run, watcher, handler goroutine, handleClose,
+    context-honouring subscriber, in-flight message, thread inside RunHandlers/Close/Stop/Run)
+    can take a step: no deadlock before Run returns.  (Run's last step returns nil.) *)
+Theorem C10_self_close_never_stuck : forall (ls : list label),
+  let s := run (rinit true true true) ls in
+  mainp s <> RNone -> (forall ok, mainp s <> RDone ok) ->
+  (0 < nexth s /\ all_past_done s) \/ (cctx s = true /\ all_follow_ctx s) ->
+  exists l, internal l = true /\ step s l <> None.
+Proof. exact self_close_not_stuck. Qed.
+Print Assumptions C10_self_close_never_stuck.
+
+(** the WaitGroup part on its own, for every variant: all goroutines past Done => counter zero *)
+Theorem C10_self_close_wg_zero : forall (f4 f14 f15 : bool) (ls : list label),
   let s := run (rinit f4 f14 f15) ls in
   (forall h, h < nexth s -> pend (h_loop (hs s h)) = false) ->
   hwg s = 0 /\ (wat s = WWait -> step s (LWatch CStep) <> None).
 Proof. exact all_ended_wg_zero. Qed.
-Print Assumptions C10_self_close_partial.
+Print Assumptions C10_self_close_wg_zero.
 
 (** FALSE of the pinned code (D14): started empty, first handler added before the watcher blocks
     in its select, handler stopped -> every handler ended, no goroutine can move, Run never returns. *)
